@@ -1,6 +1,5 @@
 package main
 
-func lookupRun()   {}
 func confRun()     {}
 func determRun()   {}
 func determChild() {}
